@@ -1,0 +1,52 @@
+//go:build verif
+
+package types
+
+// Contracts for the deductive verifier in /verif (govc). Comment-only; compiled only with -tags verif.
+
+// ---- C31: the keepers the packet-forward middleware depends on. Bank effects are stated over the ghost ledger
+// exactly as for the transfer module (one coin per call: checked at each call site); the transfer keeper's tracked
+// escrow total is seen through trackedTotal.
+
+//@ contract interface BankKeeper.SendCoins
+//@   requires single_coin: len(amt) <= 1
+//@   modifies world(ctx)
+//@   ensures failed_unchanged: err != nil ==> world(ctx) == old(world(ctx))
+//@   ensures moved: err == nil ==> world(ctx) == withLedger(old(world(ctx)), ite(len(amt) == 0, old(ledger(ctx)), lmove(old(ledger(ctx)), str(fromAddr), str(toAddr), amt[0].Denom, amt[0].Amount)))
+
+//@ contract interface BankKeeper.SendCoinsFromAccountToModule
+//@   requires single_coin: len(amt) <= 1
+//@   modifies world(ctx)
+//@   ensures failed_unchanged: err != nil ==> world(ctx) == old(world(ctx))
+//@   ensures moved: err == nil ==> world(ctx) == withLedger(old(world(ctx)), ite(len(amt) == 0, old(ledger(ctx)), lmove(old(ledger(ctx)), str(senderAddr), moduleAddr(recipientModule), amt[0].Denom, amt[0].Amount)))
+
+//@ contract interface BankKeeper.SendCoinsFromModuleToAccount
+//@   requires single_coin: len(amt) <= 1
+//@   modifies world(ctx)
+//@   ensures failed_unchanged: err != nil ==> world(ctx) == old(world(ctx))
+//@   ensures moved: err == nil ==> world(ctx) == withLedger(old(world(ctx)), ite(len(amt) == 0, old(ledger(ctx)), lmove(old(ledger(ctx)), moduleAddr(senderModule), str(recipientAddr), amt[0].Denom, amt[0].Amount)))
+
+//@ contract interface BankKeeper.MintCoins
+//@   requires single_coin: len(amt) <= 1
+//@   modifies world(ctx)
+//@   ensures failed_unchanged: err != nil ==> world(ctx) == old(world(ctx))
+//@   ensures minted: err == nil ==> world(ctx) == withLedger(old(world(ctx)), ite(len(amt) == 0, old(ledger(ctx)), lmint(old(ledger(ctx)), moduleAddr(moduleName), amt[0].Denom, amt[0].Amount)))
+
+//@ contract interface BankKeeper.BurnCoins
+//@   requires single_coin: len(amt) <= 1
+//@   modifies world(ctx)
+//@   ensures failed_unchanged: err != nil ==> world(ctx) == old(world(ctx))
+//@   ensures burned: err == nil ==> world(ctx) == withLedger(old(world(ctx)), ite(len(amt) == 0, old(ledger(ctx)), lburn(old(ledger(ctx)), moduleAddr(moduleName), amt[0].Denom, amt[0].Amount)))
+
+//@ contract interface TransferKeeper.GetTotalEscrowForDenom
+//@   ensures result.Denom == denom && result.Amount == trackedTotal(world(ctx), denom)
+
+//@ contract interface TransferKeeper.SetTotalEscrowForDenom
+//@   modifies world(ctx)
+//@   ensures stored: trackedTotal(world(ctx), coin.Denom) == coin.Amount
+//@   ensures non_negative: coin.Amount >= 0
+//@   ensures others_kept: forall d string :: d != coin.Denom ==> trackedTotal(world(ctx), d) == old(trackedTotal(world(ctx), d))
+//@   ensures ledger_untouched: ledger(ctx) == old(ledger(ctx))
+
+//@ contract interface ChannelKeeper.GetChannel
+//@   ensures true
